@@ -199,6 +199,8 @@ def random_items(seed, prop, fn, count, maxn=12):
     items = []
     for _ in range(count):
         c = gen.GENERATORS[fn](rng, maxn) if fn != "flat" else gen.gen_flat(rng, maxn)
+        if rng.random() < 0.12:
+            c = gen.rescale(c, rng)
         items.append((c, *pick_carriers(c, rng)))
     return items
 
